@@ -6,6 +6,7 @@ package pmm
 // frame, never blocks forever, and the totals add up afterwards.
 
 import (
+	"sort"
 	"fmt"
 	"runtime"
 	gosync "sync"
@@ -36,7 +37,7 @@ type c09Case struct {
 const c09Patience = 8 * time.Second
 
 type c09Stats struct {
-	ooms, contention, allocs, frees int64
+	ooms, contention, allocs, frees, doubleFrees int64
 	skipped                          bool
 }
 
@@ -76,6 +77,26 @@ func c09Run(c c09Case) (fail *vlib.Failure, rs c09Stats) {
 		}
 		return m
 	}())
+
+	// a frame that stays free for the whole concurrent phase: the allocator hands out the lowest
+	// free frame, so with at most K frames held at any time the K+1 lowest usable frames are the
+	// only ones ever handed out - the highest usable frame can be "freed again" by anybody without
+	// racing against a legitimate owner
+	holdSum := 0
+	for _, p := range c.Progs {
+		holdSum += p.HoldMax
+	}
+	var usableList []uint64
+	for _, f := range avail {
+		if (f < kf0 || f > kf1) && !early[f] {
+			usableList = append(usableList, f)
+		}
+	}
+	sort.Slice(usableList, func(i, j int) bool { return usableList[i] < usableList[j] })
+	neverHeld, haveNeverHeld := uint64(0), false
+	if len(usableList) > holdSum+2 {
+		neverHeld, haveNeverHeld = usableList[len(usableList)-1], true
+	}
 
 	// ---- deterministic lock-discipline probes ---------------------------------
 	if f := c09LockDiscipline(outside); f != nil {
@@ -132,6 +153,16 @@ func c09Run(c c09Case) (fail *vlib.Failure, rs c09Stats) {
 						continue
 					}
 					held = append(held, uint64(f))
+					continue
+				}
+				if int((r>>8)%100) < p.BogusPct && haveNeverHeld && (r>>28)&1 == 1 {
+					// free a frame that is free: refused, and nothing may change
+					err := alloc.FreeFrame(mm.Frame(neverHeld))
+					atomic.AddInt64(&progress, 1)
+					atomic.AddInt64(&rs.doubleFrees, 1)
+					if err == nil {
+						report("worker %d: FreeFrame(%#x) of a frame that is free (never handed out) was accepted", w, neverHeld)
+					}
 					continue
 				}
 				if int((r>>8)%100) < p.BogusPct && len(outside) > 0 {
@@ -359,6 +390,9 @@ func TestVerifC09(t *testing.T) {
 		}
 		fail, rs := c09Run(c)
 		labels := []string{fmt.Sprintf("workers=%d", nw), fmt.Sprintf("pools=%d", n)}
+		if rs.doubleFrees > 0 {
+			labels = append(labels, "concurrent-free-of-a-free-frame")
+		}
 		if rs.ooms > 0 {
 			labels = append(labels, "hit-out-of-memory")
 		}
